@@ -106,3 +106,21 @@ Definition opt_eqb {A} (eqb : A -> A -> bool) (a b : option A) : bool :=
 Fixpoint mism_from {A} (chk : A -> bool) (i : nat) (l : list A) : list nat :=
   match l with [] => [] | x :: r => if chk x then mism_from chk (S i) r else i :: mism_from chk (S i) r end.
 Definition mismatches {A} (chk : A -> bool) (l : list A) : list nat := mism_from chk 0 l.
+
+Lemma NoDup_app_inv {A} (l1 l2 : list A) :
+  NoDup (l1 ++ l2) -> NoDup l1 /\ NoDup l2 /\ (forall x, In x l1 -> ~ In x l2).
+Proof.
+  induction l1 as [|a l IH]; cbn; intros H.
+  - split; [constructor|]. split; [exact H|]. intros x [].
+  - inversion H as [|? ? Hn Hd]; subst. destruct (IH Hd) as (H1 & H2 & H3).
+    split; [constructor; [intros Hi; apply Hn; apply in_app_iff; left; exact Hi|exact H1]|].
+    split; [exact H2|]. intros x [<-|Hx]; [intros Hi; apply Hn; apply in_app_iff; right; exact Hi|apply H3; exact Hx].
+Qed.
+Lemma NoDup_app_intro {A} (l1 l2 : list A) :
+  NoDup l1 -> NoDup l2 -> (forall x, In x l1 -> ~ In x l2) -> NoDup (l1 ++ l2).
+Proof.
+  induction l1 as [|a l IH]; cbn; intros H1 H2 H3; [exact H2|].
+  inversion H1; subst. constructor.
+  - rewrite in_app_iff. intros [Hi|Hi]; [tauto|]. eapply H3; [left; reflexivity|exact Hi].
+  - apply IH; auto.
+Qed.
